@@ -124,6 +124,9 @@ thread_local! {
 }
 
 /// Native contract panics are caught by the host; keep stderr quiet.
+/// how far ahead of the current ledger the keeper keeps every durable entry alive
+pub const KEEPER_HORIZON: u32 = 3_000_000;
+
 pub fn install_quiet_panic_hook() {
     use std::sync::Once;
     static ONCE: Once = Once::new();
@@ -361,8 +364,36 @@ impl World {
     pub fn set_time(&self, t: u64) {
         self.env.ledger().set_timestamp(t)
     }
+    /// Moves the ledger sequence and plays the network's *keeper*: on Stellar anybody can extend
+    /// the lifetime of, or restore, any instance / persistent / code entry, and an archived entry
+    /// is not lost, so for safety properties such entries are immortal; the world therefore pushes
+    /// their `live_until` ahead of every new sequence number. Temporary entries are left alone:
+    /// they really disappear at their `live_until`, however far the ledger jumps.
     pub fn set_seq(&self, s: u32) {
-        self.env.ledger().set_sequence_number(s)
+        self.env.ledger().set_sequence_number(s);
+        let want = s.saturating_add(KEEPER_HORIZON);
+        let budget = self.env.host().budget_cloned();
+        self.env
+            .host()
+            .with_mut_storage(|st| {
+                let mut bump = vec![];
+                for (k, v) in st.map.iter(&budget)? {
+                    let Some((entry, live_until)) = v else { continue };
+                    let durable = match k.as_ref() {
+                        LedgerKey::ContractCode(_) => true,
+                        LedgerKey::ContractData(cd) => cd.durability == ContractDataDurability::Persistent,
+                        _ => false,
+                    };
+                    if durable && live_until.map(|l| l < want).unwrap_or(false) {
+                        bump.push((k.clone(), entry.clone()));
+                    }
+                }
+                for (k, e) in bump {
+                    st.map = st.map.insert(k, Some((e, Some(want))), &budget)?;
+                }
+                Ok(())
+            })
+            .unwrap();
     }
 
     // ---------------------------------------------------------------- calls
